@@ -489,6 +489,31 @@ func (x *Exec) zzverifEnv(name string, c *CallCtx) (Value, bool) {
 	case "OrmSeq0":
 		ts := e.tableByName(x, x.constStr(a[0], "table name"))
 		return IntV{ts.seq0(x)}, true
+	case "OrmSplit":
+		// OrmSplit(table, key...): one path per identity of the given (skolem) key with a key
+		// of the table that this execution wrote, plus one for "none of them": obligations
+		// about the skolem key are then decided without a case analysis inside the solver
+		ts := e.tableByName(x, x.constStr(a[0], "table name"))
+		k := x.keyTerms(x.variadic(a[1]))
+		seen := map[string]bool{}
+		for _, le := range ts.Log[x.snapLen(ts):] {
+			sig := ""
+			for _, t := range le.PK {
+				sig += t.Ref() + ","
+			}
+			if seen[sig] {
+				continue
+			}
+			seen[sig] = true
+			eq := x.keysEq(le.PK, k)
+			if eq.IsFalse() || eq.IsTrue() {
+				continue
+			}
+			if x.Branch(eq) {
+				break
+			}
+		}
+		return nil, true
 	case "OrmWrites":
 		ts := e.tableByName(x, x.constStr(a[0], "table name"))
 		return IntV{B.Int(int64(len(ts.Log) - x.snapLen(ts)))}, true
